@@ -1215,6 +1215,68 @@ type c20CfgOp struct {
 	Alpha   bool
 	ID, Key []byte
 	Val     c20CfgVal
+	// notary-disabled NeoFS (history.Votes > 0): the transaction is signed by
+	// these keys (indices into the Alphabet list given at deploy; -1 = the
+	// stranger); Skip empty blocks are generated before it.
+	Voters []int
+	Skip   int
+}
+
+// c20Tally is the harness's reference of common.Vote / RemoveVotes (the
+// mechanics are C17's): ballots in storage order, dropped when older than 20
+// blocks at the next vote, closed when the threshold is reached.
+type c20Ballot struct {
+	id     string
+	voters []int
+	height int
+}
+type c20Tally struct {
+	ballots   []c20Ballot
+	threshold int
+}
+
+// vote returns whether this vote completes the tally of id (and closes it).
+func (tl *c20Tally) vote(id []byte, k, h int) bool {
+	var nb []c20Ballot
+	found := -1
+	for _, b := range tl.ballots {
+		if h-b.height > 20 {
+			continue
+		}
+		if b.id == string(id) {
+			for _, x := range b.voters {
+				if x == k {
+					return len(b.voters) >= tl.threshold // repeated vote: nothing is written
+				}
+			}
+			b = c20Ballot{id: b.id, voters: append(append([]int{}, b.voters...), k), height: h}
+			found = len(b.voters)
+		}
+		nb = append(nb, b)
+	}
+	if found < 0 {
+		nb = append(nb, c20Ballot{id: string(id), voters: []int{k}, height: h})
+		found = 1
+	}
+	tl.ballots = nb
+	if found < tl.threshold {
+		return false
+	}
+	for i, b := range tl.ballots { // RemoveVotes: the first ballot with this id
+		if b.id == string(id) {
+			tl.ballots = append(append([]c20Ballot{}, tl.ballots[:i]...), tl.ballots[i+1:]...)
+			break
+		}
+	}
+	return true
+}
+
+func (tl *c20Tally) clone() *c20Tally {
+	c := &c20Tally{threshold: tl.threshold}
+	for _, b := range tl.ballots {
+		c.ballots = append(c.ballots, c20Ballot{id: b.id, voters: append([]int{}, b.voters...), height: b.height})
+	}
+	return c
 }
 
 type c20CfgInit struct {
@@ -1224,6 +1286,7 @@ type c20CfgInit struct {
 
 type c20CfgHistory struct {
 	Name  string
+	Votes int // > 0: NeoFS deployed with notaryDisabled and an Alphabet list of that many keys
 	NeoFS bool
 	Init  []c20CfgInit
 	Keys  [][]byte
@@ -1236,6 +1299,9 @@ var (
 )
 
 func (o c20CfgOp) String() string {
+	if o.Voters != nil {
+		return fmt.Sprintf("[+%d blocks] setConfig(voters=%v, id=%s, key=%q, value=%s)", o.Skip, o.Voters, Hex(o.ID), o.Key, o.Val)
+	}
 	return fmt.Sprintf("setConfig(alpha=%v, id=%s, key=%q, value=%s)", o.Alpha, Hex(o.ID), o.Key, o.Val)
 }
 
@@ -1275,7 +1341,14 @@ func c20RunCfg(run *c20Run, p *c20Pool, hs c20CfgHistory, corpus bool) string {
 	if hs.NeoFS {
 		fam, kd = "cfg.neofs", "CNeoFS"
 		c := v.Compile("neofs")
-		v.E.DeployContract(t, c, []any{false, bytes.Repeat([]byte{0x77}, 20), []any{c20Pub(c20Signer("alphabet", 0))}, init})
+		alphaPubs := []any{c20Pub(c20Signer("alphabet", 0))}
+		for i := 1; i < hs.Votes; i++ {
+			alphaPubs = append(alphaPubs, c20Pub(c20Signer("alphabet", i)))
+		}
+		if hs.Votes > 0 {
+			fam = "cfg.neofs-votes"
+		}
+		v.E.DeployContract(t, c, []any{hs.Votes > 0, bytes.Repeat([]byte{0x77}, 20), alphaPubs, init})
 		hash = c.Hash
 	} else {
 		c := v.Compile("netmap")
@@ -1285,6 +1358,14 @@ func c20RunCfg(run *c20Run, p *c20Pool, hs c20CfgHistory, corpus bool) string {
 	stranger := c20Signer("stranger", 0)
 	c20Fund(v, stranger)
 	p.Atom(c20CfgKey58)
+	var voters []neotest.Signer
+	for i := 0; i < hs.Votes; i++ {
+		voters = append(voters, c20Signer("alphabet", i))
+	}
+	if len(voters) > 0 {
+		c20Fund(v, voters...)
+	}
+	tally := &c20Tally{threshold: hs.Votes*2/3 + 1}
 
 	h := run.newHist(fam, hs.Name, corpus)
 	ref := map[string][]byte{}
@@ -1300,31 +1381,88 @@ func c20RunCfg(run *c20Run, p *c20Pool, hs c20CfgHistory, corpus bool) string {
 	}
 	var steps []string
 	for _, op := range hs.Ops {
-		sg := []neotest.Signer{v.E.Committee}
-		if !op.Alpha {
-			sg = []neotest.Signer{stranger}
-		}
-		r := v.Invoke(sg, hash, "setConfig", op.ID, op.Key, op.Val.arg())
-		h.op("setConfig", op.String(), r.Halt, true)
 		fits := len(op.Key)+6 <= 64
-		// NeoFS notifies SetConfig(id, key, val) with val declared ByteArray: an
-		// Integer / Boolean value makes runtime.Notify fault there; Netmap stores
-		// it in canonical form.  Null makes storage.Put fault in both.
-		typeOK := op.Val.Ty == "" || (!hs.NeoFS && op.Val.Ty != "null")
-		switch {
-		case r.Halt && !op.Alpha:
-			h.violate("setConfig accepted without the committee witness")
-		case r.Halt && !fits:
-			h.violate("setConfig accepted a storage key longer than 64 bytes")
-		case r.Halt && !typeOK:
-			h.violate("setConfig accepted a " + op.Val.Ty + " value")
-		case !r.Halt && op.Alpha && fits && typeOK:
-			h.violate("setConfig by the committee refused: " + r.Fault)
+		var r Result
+		applied := false // this transaction's setConfig takes effect
+		coqOp := ""
+		if hs.Votes > 0 {
+			// notary-disabled NeoFS: one vote of the first Alphabet key (in list
+			// order) that witnesses the transaction
+			if op.Skip > 0 {
+				v.E.GenerateNewBlocks(t, op.Skip)
+			}
+			var sg []neotest.Signer
+			member := -1
+			dup := map[int]bool{}
+			for _, k := range op.Voters {
+				if k < 0 || k >= len(voters) {
+					k = -1
+				}
+				if dup[k] { // an account signs a transaction once
+					continue
+				}
+				dup[k] = true
+				if k < 0 {
+					sg = append(sg, stranger)
+					continue
+				}
+				sg = append(sg, voters[k])
+				if member < 0 || k < member {
+					member = k
+				}
+			}
+			if len(sg) == 0 {
+				sg = []neotest.Signer{stranger}
+			}
+			// the value must be a byte string only when the setConfig is executed
+			putOK := fits && op.Val.Ty == ""
+			next := tally.clone()
+			completes := member >= 0 && next.vote(op.ID, member, int(v.BC.BlockHeight())+1)
+			r = v.Invoke(sg, hash, "setConfig", op.ID, op.Key, op.Val.arg())
+			h.op("setConfig", op.String(), r.Halt, true)
+			wantHalt := member >= 0 && (!completes || putOK)
+			switch {
+			case r.Halt && member < 0:
+				h.violate("setConfig (vote) accepted from a key outside the Alphabet list")
+			case r.Halt != wantHalt:
+				h.violate(fmt.Sprintf("setConfig vote: halted=%v, expected %v (%s)", r.Halt, wantHalt, r.Fault))
+			}
+			if wantHalt { // a faulting transaction leaves the ballots as they were
+				tally = next
+				applied = completes
+			}
+			if applied {
+				h.overlap = h.overlap || len(tally.ballots) > 0 // a decision fired while another one is open
+			}
+			coqOp = fmt.Sprintf("CVote %s %s %s %s %s", BoolLit(member >= 0), BoolLit(completes), p.Ref(op.ID), p.Ref(op.Key), op.Val.coq(p))
+		} else {
+			sg := []neotest.Signer{v.E.Committee}
+			if !op.Alpha {
+				sg = []neotest.Signer{stranger}
+			}
+			r = v.Invoke(sg, hash, "setConfig", op.ID, op.Key, op.Val.arg())
+			h.op("setConfig", op.String(), r.Halt, true)
+			// NeoFS notifies SetConfig(id, key, val) with val declared ByteArray: an
+			// Integer / Boolean value makes runtime.Notify fault there; Netmap stores
+			// it in canonical form.  Null makes storage.Put fault in both.
+			typeOK := op.Val.Ty == "" || (!hs.NeoFS && op.Val.Ty != "null")
+			switch {
+			case r.Halt && !op.Alpha:
+				h.violate("setConfig accepted without the committee witness")
+			case r.Halt && !fits:
+				h.violate("setConfig accepted a storage key longer than 64 bytes")
+			case r.Halt && !typeOK:
+				h.violate("setConfig accepted a " + op.Val.Ty + " value")
+			case !r.Halt && op.Alpha && fits && typeOK:
+				h.violate("setConfig by the committee refused: " + r.Fault)
+			}
+			if !r.Halt && op.Alpha && fits && !typeOK {
+				h.note("setConfig with an Integer/Boolean value faults in NeoFS (Notify type check), with Null in both (storage.Put)")
+			}
+			applied = r.Halt
+			coqOp = fmt.Sprintf("CSet %s %s %s %s", BoolLit(op.Alpha), p.Ref(op.ID), p.Ref(op.Key), op.Val.coq(p))
 		}
-		if !r.Halt && op.Alpha && fits && !typeOK {
-			h.note("setConfig with an Integer/Boolean value faults in NeoFS (Notify type check), with Null in both (storage.Put)")
-		}
-		if r.Halt {
+		if applied {
 			ref[string(op.Key)] = op.Val.canon()
 		}
 		var ns []string
@@ -1346,7 +1484,7 @@ func c20RunCfg(run *c20Run, p *c20Pool, hs c20CfgHistory, corpus bool) string {
 			}
 		}
 		wantEv := 0
-		if hs.NeoFS && r.Halt {
+		if hs.NeoFS && r.Halt && applied {
 			wantEv = 1
 		}
 		if nEv != wantEv {
@@ -1425,7 +1563,7 @@ func c20RunCfg(run *c20Run, p *c20Pool, hs c20CfgHistory, corpus bool) string {
 			h.violate("setConfig changed storage outside the config prefix")
 		}
 		obs := VList([]string{res, p.VL(ns), p.VL(gets), p.VL(ps)})
-		steps = append(steps, fmt.Sprintf("(CSet %s %s %s %s, %s)", BoolLit(op.Alpha), p.Ref(op.ID), p.Ref(op.Key), op.Val.coq(p), p.T(obs)))
+		steps = append(steps, fmt.Sprintf("(%s, %s)", coqOp, p.T(obs)))
 	}
 	h.finish()
 	var ini []string
@@ -1510,7 +1648,7 @@ func c20CfgCorpus() []c20CfgHistory {
 				Ops: []c20CfgOp{set(string(c20CfgKey59), 1), set(string(c20CfgKey58), 2), set("k", 3), bad(string(c20CfgKey58), 4), set(string(c20CfgKey58)), set(string(c20CfgKey59))}},
 			c20CfgHistory{Name: "init-duplicates", NeoFS: neofs, Init: []c20CfgInit{ini("a", 1), ini("a", 2), ini("", 3), ini("z")},
 				Keys: [][]byte{B("a"), {}, B("z"), B("y")},
-				Ops: []c20CfgOp{bad("y", 1), {true, nil, B("z"), c20VB(1)}, set("y"), {true, c20Bytes("cfgid", 32), B("a"), c20VB()}}},
+				Ops: []c20CfgOp{bad("y", 1), {Alpha: true, Key: B("z"), Val: c20VB(1)}, set("y"), {Alpha: true, ID: c20Bytes("cfgid", 32), Key: B("a"), Val: c20VB()}}},
 			// fixed-width little-endian numbers: 8 bytes with redundant high bytes
 			c20CfgHistory{Name: "uint64-values", NeoFS: neofs,
 				Init: []c20CfgInit{ini("MaxObjectSize", 0, 0, 16, 0, 0, 0, 0, 0), ini("Zero8", 0, 0, 0, 0, 0, 0, 0, 0)},
@@ -1525,8 +1663,8 @@ func c20CfgCorpus() []c20CfgHistory {
 					{B("Off"), c20CfgVal{Ty: "bool"}}, {B("Minus"), c20CfgVal{Ty: "int", I: big.NewInt(-129)}}, {B("Nought"), c20CfgVal{Ty: "int", I: big.NewInt(0)}}},
 				Keys: [][]byte{B("ContainerFee"), B("Flag"), B("Off"), B("Minus"), B("Nought"), B("k")},
 				Ops: []c20CfgOp{setI("k", 5), set("k", 5, 0), setB("k", true), setB("Flag", false), setI("Minus", -1), setI("Nought", 0),
-					{true, []byte{5}, B("k"), c20CfgVal{Ty: "null"}}, setI("ContainerFee", 1<<40), set("ContainerFee", 0, 0, 0, 0, 0, 1, 0, 0),
-					{false, []byte{4}, B("k"), c20CfgVal{Ty: "int", I: big.NewInt(7)}}}},
+					{Alpha: true, ID: []byte{5}, Key: B("k"), Val: c20CfgVal{Ty: "null"}}, setI("ContainerFee", 1<<40), set("ContainerFee", 0, 0, 0, 0, 0, 1, 0, 0),
+					{Alpha: false, ID: []byte{4}, Key: B("k"), Val: c20CfgVal{Ty: "int", I: big.NewInt(7)}}}},
 		)
 		// every length, every shape, set and read back
 		for shape := 0; shape < c20CfgShapes; shape++ {
@@ -1543,7 +1681,96 @@ func c20CfgCorpus() []c20CfgHistory {
 			out = append(out, hs)
 		}
 	}
+	out = append(out, c20CfgVoteCorpus()...)
 	return out
+}
+
+// Notary-disabled NeoFS: setConfig(id, key, val) is one vote of an Alphabet
+// key; the configuration read back must be the value of the last decision
+// whose tally reached 2n/3+1, no more.
+func c20CfgVoteCorpus() []c20CfgHistory {
+	B := func(s string) []byte { return []byte(s) }
+	vt := func(id byte, k string, val string, voters ...int) c20CfgOp {
+		return c20CfgOp{ID: []byte{id}, Key: B(k), Val: c20VB(B(val)...), Voters: voters}
+	}
+	after := func(n int, o c20CfgOp) c20CfgOp { o.Skip = n; return o }
+	keys := [][]byte{B("K"), B("L"), B("KL"), {}}
+	return []c20CfgHistory{
+		// three votes apply (1, K=one), three apply (2, K=two); the fourth node's late vote for 1 opens a
+		// fresh ballot and changes nothing; nor do two more repeated votes; a third distinct late vote re-applies
+		{Name: "votes-late-after-decision", NeoFS: true, Votes: 4, Keys: keys, Init: []c20CfgInit{{B("K"), c20VB(B("init")...)}},
+			Ops: []c20CfgOp{vt(1, "K", "one", 0), vt(1, "K", "one", 1), vt(1, "K", "one", 2), vt(2, "K", "two", 0), vt(2, "K", "two", 1), vt(2, "K", "two", 2),
+				vt(1, "K", "one", 3), vt(1, "K", "one", 3), vt(2, "K", "two", 3), vt(1, "K", "one", 0), vt(1, "K", "one", 3), vt(1, "K", "one", 1)}},
+		// two decisions open at once on one key and on different keys, interleaved; repeated votes do not count
+		{Name: "votes-two-open", NeoFS: true, Votes: 4, Keys: keys,
+			Ops: []c20CfgOp{vt(1, "K", "a", 0), vt(2, "K", "b", 1), vt(3, "L", "c", 2), vt(1, "K", "a", 0), vt(2, "K", "b", 0), vt(1, "K", "a", 1), vt(3, "L", "c", 3),
+				vt(2, "K", "b", 2), vt(1, "K", "a", 2), vt(3, "L", "c", 3), vt(3, "L", "c", 0), vt(1, "K", "a", 3), vt(2, "K", "b", 3), vt(4, "KL", "d", -1), vt(4, "KL", "d", 3, -1)}},
+		// one id, different payloads: the completing invocation's arguments are stored
+		{Name: "votes-one-id-many-payloads", NeoFS: true, Votes: 5, Keys: keys,
+			Ops: []c20CfgOp{vt(7, "K", "x", 0), vt(7, "L", "y", 1), vt(7, "K", "z", 2), vt(7, "KL", "w", 3), vt(7, "K", "x", 4), vt(7, "K", "x", 0), vt(7, "", "e", 1), vt(7, "L", "y", 2),
+				vt(7, "L", "y2", 3)}},
+		// ballots expire after 20 blocks without a vote
+		{Name: "votes-expiry", NeoFS: true, Votes: 4, Keys: keys,
+			Ops: []c20CfgOp{vt(1, "K", "one", 0), vt(1, "K", "one", 1), after(21, vt(1, "K", "one", 2)), vt(1, "K", "one", 0), vt(1, "K", "one", 1),
+				vt(2, "L", "two", 0), after(18, vt(2, "L", "two", 1)), after(19, vt(2, "L", "two", 2)), after(25, vt(3, "K", "three", 3)), vt(2, "L", "late", 3)}},
+		// several keys witness one transaction (the first of the list votes), strangers, thresholds 1 and 5-of-7
+		{Name: "votes-multi-signers", NeoFS: true, Votes: 4, Keys: keys,
+			Ops: []c20CfgOp{vt(1, "K", "one", 2, 1), vt(1, "K", "one", 1, 3), vt(1, "K", "one", 3, -1), vt(1, "K", "one", 2), vt(2, "L", "two", -1), vt(2, "L", "two", 0, 1, 2, 3),
+				vt(2, "L", "two", 1, 2), vt(2, "L", "two", 3, 2)}},
+		{Name: "votes-single-key", NeoFS: true, Votes: 1, Keys: keys,
+			Ops: []c20CfgOp{vt(1, "K", "one", 0), vt(1, "K", "two", 0), vt(2, "L", "x", -1), vt(1, "K", "three", 0), vt(3, "", "e", 0)}},
+		{Name: "votes-seven-keys", NeoFS: true, Votes: 7, Keys: keys,
+			Ops: []c20CfgOp{vt(1, "K", "one", 0), vt(1, "K", "one", 1), vt(1, "K", "one", 2), vt(1, "K", "one", 3), vt(2, "K", "two", 6), vt(1, "K", "one", 4), vt(1, "K", "one", 5),
+				vt(1, "K", "one", 6), vt(2, "K", "two", 5), vt(2, "K", "two", 4), vt(2, "K", "two", 3), vt(2, "K", "two", 2), vt(1, "K", "one", 0), vt(2, "K", "two", 1)}},
+		// a completing vote whose setConfig cannot be executed faults as a whole: the ballot stays open
+		{Name: "votes-failing-completion", NeoFS: true, Votes: 4, Keys: [][]byte{B("K"), c20CfgKey58, c20CfgKey59},
+			Ops: []c20CfgOp{{ID: []byte{1}, Key: c20CfgKey59, Val: c20VB(1), Voters: []int{0}}, {ID: []byte{1}, Key: c20CfgKey59, Val: c20VB(1), Voters: []int{1}},
+				{ID: []byte{1}, Key: c20CfgKey59, Val: c20VB(1), Voters: []int{2}}, {ID: []byte{1}, Key: c20CfgKey58, Val: c20VB(2), Voters: []int{2}},
+				{ID: []byte{2}, Key: B("K"), Val: c20CfgVal{Ty: "int", I: big.NewInt(5)}, Voters: []int{0}}, {ID: []byte{2}, Key: B("K"), Val: c20CfgVal{Ty: "null"}, Voters: []int{1}},
+				{ID: []byte{2}, Key: B("K"), Val: c20CfgVal{Ty: "int", I: big.NewInt(5)}, Voters: []int{2}}, {ID: []byte{2}, Key: B("K"), Val: c20VB(5), Voters: []int{2}},
+				{ID: []byte{1}, Key: c20CfgKey58, Val: c20VB(3), Voters: []int{3}}}},
+	}
+}
+
+func c20CfgRandomVotes(r *rand.Rand, i int) c20CfgHistory {
+	hs := c20CfgHistory{Name: fmt.Sprintf("random-votes-%d", i), NeoFS: true, Votes: []int{4, 4, 4, 5, 7, 3, 2}[r.Intn(7)]}
+	hs.Keys = [][]byte{[]byte("K"), []byte("L"), []byte("KL")}
+	if r.Intn(3) == 0 {
+		hs.Init = []c20CfgInit{{Key: hs.Keys[r.Intn(3)], Val: c20VB('i')}}
+	}
+	// a few decisions, each with its own payload; most votes repeat the payload of their id
+	type dec struct {
+		id, key []byte
+		val     c20CfgVal
+	}
+	var decs []dec
+	for d := 0; d < 3+r.Intn(3); d++ {
+		decs = append(decs, dec{id: []byte{byte(d + 1)}, key: hs.Keys[r.Intn(3)], val: c20VB(byte('a' + d))})
+	}
+	n := 10 + r.Intn(12)
+	for k := 0; k < n; k++ {
+		d := decs[r.Intn(len(decs))]
+		if r.Intn(3) != 0 { // concentrate on two decisions so that tallies complete
+			d = decs[r.Intn(2)]
+		}
+		op := c20CfgOp{ID: d.id, Key: d.key, Val: d.val, Voters: []int{r.Intn(hs.Votes)}}
+		switch r.Intn(14) {
+		case 0:
+			op.Voters = []int{-1}
+		case 1:
+			op.Voters = append(op.Voters, r.Intn(hs.Votes))
+		case 2:
+			op.Val = c20VB(byte('A' + k)) // same id, another value
+		case 3:
+			op.Key = hs.Keys[r.Intn(3)] // same id, another key
+		case 4:
+			op.Skip = []int{1, 5, 19, 20, 21, 30}[r.Intn(6)]
+		case 5:
+			op.Val = c20CfgRandomVal(r, fmt.Sprintf("v%d-%d", i, k), true)
+		}
+		hs.Ops = append(hs.Ops, op)
+	}
+	return hs
 }
 
 func c20CfgRandomVal(r *rand.Rand, salt string, typed bool) c20CfgVal {
@@ -1599,8 +1826,11 @@ func c20CfgFamily(run *c20Run, batch int) {
 		}
 	}
 	r := Rng(2004 + int64(batch))
-	for i := 0; i < 160; i++ {
+	for i := 0; i < 130; i++ {
 		cases = append(cases, c20RunCfg(run, p, c20CfgRandom(r, batch*1000+i), false))
+	}
+	for i := 0; i < 40; i++ {
+		cases = append(cases, c20RunCfg(run, p, c20CfgRandomVotes(r, batch*1000+i), false))
 	}
 	f := c20FileName("cfg", batch)
 	run.sizes[f] = c20WriteCases(run.t, f, "Config", "ccheck_case", p, cases)
